@@ -169,3 +169,114 @@ Proof. vm_compute. reflexivity. Qed.
 Example ex_basic_colon_user :
   basic_read (basic_write [97;58;98] [99] (mkReq [] [] false [])) = Some ([97], [98;58;99]).
 Proof. vm_compute. reflexivity. Qed.
+
+(* ---------- writers as data; the default credential against every kind of operation writer ---------- *)
+Section WriterInd.
+  Variable P : writer -> Prop.
+  Hypothesis Hbasic : forall u p, P (WBasic u p).
+  Hypothesis Hbearer : forall tok, P (WBearer tok).
+  Hypothesis Hkey : forall name loc v, P (WKey name loc v).
+  Hypothesis Hpass : P WPass.
+  Hypothesis Hcompose : forall ws, Forall P ws -> P (WCompose ws).
+  Fixpoint writer_ind' (w : writer) : P w :=
+    match w with
+    | WBasic u p => Hbasic u p
+    | WBearer tok => Hbearer tok
+    | WKey name loc v => Hkey name loc v
+    | WPass => Hpass
+    | WCompose ws =>
+      Hcompose ws ((fix go (l : list writer) : Forall P l :=
+                      match l with
+                      | [] => Forall_nil P
+                      | x :: r => Forall_cons x (writer_ind' x) (go r)
+                      end) ws)
+    end.
+End WriterInd.
+
+(* a composition writes its members in order on the same request; the empty one and PassThroughAuth write nothing *)
+Theorem compose_sequence : forall a r q,
+  write_cred (WCompose (a :: r)) q = write_cred (WCompose r) (write_cred a q).
+Proof. reflexivity. Qed.
+Theorem compose_empty : forall q, write_cred (WCompose []) q = q /\ write_cred WPass q = q.
+Proof. intros q. split; reflexivity. Qed.
+
+Lemma lookup_remove_other k k' l : bytes_eqb k k' = false -> lookup k (remove_key k' l) = lookup k l.
+Proof.
+  intros Hne. induction l as [|[a v] l IH]; [reflexivity|].
+  unfold remove_key in *. cbn [filter fst lookup].
+  destruct (bytes_eqb k' a) eqn:Ea; cbn [negb].
+  - apply bytes_eqb_eq in Ea. subst a. rewrite Hne. exact IH.
+  - cbn [lookup]. destruct (bytes_eqb k a); [reflexivity | exact IH].
+Qed.
+
+Lemma raw_header_set_other name v q :
+  bytes_eqb (lower name) s_authorization = false ->
+  raw_header s_authorization (set_header name v q) = raw_header s_authorization q.
+Proof.
+  intros Hne. unfold raw_header, set_header. cbn [r_headers lookup].
+  change (lower s_authorization) with s_authorization.
+  assert (Hne' : bytes_eqb s_authorization (lower name) = false).
+  { apply bytes_eqb_neq. apply bytes_eqb_neq in Hne. congruence. }
+  rewrite Hne'. now apply lookup_remove_other.
+Qed.
+
+(* a writer that is not an Authorization writer leaves the Authorization header as it was *)
+Theorem non_authorization_writer_frame : forall w q,
+  writes_authorization w = false ->
+  raw_header s_authorization (write_cred w q) = raw_header s_authorization q.
+Proof.
+  intros w. induction w as [u p|tok|name loc v| |ws IH] using writer_ind'; intros q Hw; cbn [writes_authorization] in Hw.
+  - discriminate.
+  - discriminate.
+  - destruct loc; cbn [write_cred apikey_write].
+    + now apply raw_header_set_other.
+    + reflexivity.
+  - reflexivity.
+  - cbn [write_cred]. revert q. induction IH as [|x l Hx Hl IHl]; intros q; [reflexivity|].
+    cbn [existsb] in Hw. apply orb_false_iff in Hw as [Hwx Hwl].
+    cbn [fold_left]. rewrite (IHl Hwl). now apply Hx.
+Qed.
+
+(* the implementation's rule = the property's rule, for every pair of writers *)
+Theorem effective_cred_expected : forall op default q,
+  effective_cred op default q = expected_request op default q.
+Proof.
+  intros [w|] [d|] q; unfold effective_cred, expected_request, default_applicable; cbn [option_map effective_auth];
+    try reflexivity.
+  destruct (raw_header s_authorization q); reflexivity.
+Qed.
+
+(* an operation with a writer of its own never gets the default credential, whatever its writer does *)
+Theorem own_credential_excludes_default : forall w default q,
+  effective_cred (Some w) default q = write_cred w q.
+Proof. intros w [d|] q; reflexivity. Qed.
+
+(* a pre-set Authorization header keeps the default credential away *)
+Theorem preset_authorization_excludes_default : forall default q,
+  raw_header s_authorization q <> [] -> effective_cred None default q = q.
+Proof.
+  intros [d|] q H; unfold effective_cred; cbn [option_map effective_auth]; [|reflexivity].
+  destruct (raw_header s_authorization q); [contradiction | reflexivity].
+Qed.
+
+(* the default credential is not a fallback: an operation whose own writer leaves Authorization alone
+   (API key, pass-through, compositions of those) still has no Authorization header afterwards *)
+Theorem default_not_a_fallback : forall w d q,
+  writes_authorization w = false -> raw_header s_authorization q = [] ->
+  raw_header s_authorization (effective_cred (Some w) (Some d) q) = [].
+Proof.
+  intros w d q Hw Hq. rewrite own_credential_excludes_default.
+  rewrite (non_authorization_writer_frame w q Hw). exact Hq.
+Qed.
+
+(* the hypotheses are satisfiable and the rule differs from the fallback reading: X-Key writer, bearer default *)
+Example ex_default_not_a_fallback :
+  let w := WCompose [WKey [120;45;107;101;121] InHeader [107]; WPass; WKey [107] InQuery [118]] in
+  let d := WBearer [68;69;70] in
+  let q := mkReq [] [] false [] in
+  writes_authorization w = false /\
+  get_header s_authorization (effective_cred (Some w) (Some d) q) = [] /\
+  get_header s_authorization (write_cred d (write_cred w q)) = s_bearer ++ [68;69;70] /\
+  get_header [120;45;107;101;121] (effective_cred (Some w) (Some d) q) = [107] /\
+  get_query [107] (effective_cred (Some w) (Some d) q) = [118].
+Proof. vm_compute. repeat split. Qed.
